@@ -1,12 +1,650 @@
-//! C05: harness not built yet.
+//! C05: the access-control decision.
+//!
+//! One case = one node configuration built through the real API on a real `Matter` object
+//! (`Fabrics::add_with_post_init`, `Fabrics::remove`, `Fabric::acl_add`, `Groups::add`,
+//! `Groups::set_has_aux_acl`) followed by queries answered by the real `AccessReq::allow()` and
+//! `Accessor::is_endpoint_accessible()`.
+//!
+//! Ops (all self-contained text):
+//!   caps F A S T G E C                               => ok      capacities this build was compiled with
+//!   fab                                              => <idx>|err
+//!   rmfab <idx>                                      => ok|err
+//!   acl <fab> <privbits> <c|g|p> <subjects> <targets> => <idx>|err
+//!        subjects: null | e | n,n,..      targets: null | e | ep/cl/dt;..  (`-` = absent component)
+//!   grp <fab> <gid> <ep>                             => ok|err
+//!   gaux <fab> <gid> <0|1>                           => changed|same|err
+//!   q <fab> <p|c|g|n> <aux> <id> <cats|-> <ep|*> <cl|*> <leaf|*> <opbits> <perms|none> <dts|->
+//!                                                    => allow|deny <match_accessor bits|-> <match_access_desc bits|->
+//!   ep <fab> <p|c|g|n> <id> <endpoint>               => yes|no
+use crate::proto::{parse_cases, Case, Out};
+use crate::rng::Rng;
 use crate::Args;
 
-pub fn gen(_a: &Args) -> String {
-    eprintln!("C05: harness not built yet");
-    std::process::exit(2);
+use core::num::NonZeroU8;
+
+use rs_matter::acl::{
+    AccessReq, Accessor, AccessorSubjects, AclEntry, AuthMode, Target, MAX_ACL_ENTRIES_PER_FABRIC,
+    MAX_SUBJECTS_PER_ACL_ENTRY, MAX_TARGETS_PER_ACL_ENTRY, NOC_CAT_SUBJECT_PREFIX,
+};
+use rs_matter::dm::devices::test::{TEST_DEV_ATT, TEST_DEV_COMM, TEST_DEV_DET};
+use rs_matter::dm::{Access, DeviceType, Privilege};
+use rs_matter::fabric::{GROUP_ENDPOINTS_PER_FABRIC, MAX_FABRICS, MAX_GROUPS_PER_FABRIC};
+use rs_matter::im::GenericPath;
+use rs_matter::transport::session::MAX_CAT_IDS_PER_NOC;
+use rs_matter::Matter;
+
+pub(crate) fn mode_of(s: &str) -> Option<AuthMode> {
+    match s {
+        "p" => Some(AuthMode::Pase),
+        "c" => Some(AuthMode::Case),
+        "g" => Some(AuthMode::Group),
+        _ => None,
+    }
 }
 
-pub fn replay(_a: &Args) -> String {
-    eprintln!("C05: harness not built yet");
-    std::process::exit(2);
+pub(crate) fn opt_num<T: core::str::FromStr>(s: &str) -> Option<T> {
+    if s == "*" || s == "-" {
+        None
+    } else {
+        s.parse().ok()
+    }
+}
+
+pub(crate) fn reset(matter: &Matter<'_>) {
+    matter.with_state(|state| {
+        let idxs: Vec<NonZeroU8> = state.fabrics.iter().map(|f| f.fab_idx()).collect();
+        for i in idxs {
+            let _ = state.fabrics.remove(i);
+        }
+    });
+}
+
+fn build_entry(priv_bits: u8, mode: AuthMode, subjects: &str, targets: &str) -> Option<AclEntry> {
+    let mut e = AclEntry::new(None, Privilege::from_bits_retain(priv_bits), mode);
+    match subjects {
+        "null" => {}
+        "e" => e.verif_set_empty_lists(true, false),
+        list => {
+            for s in list.split(',') {
+                let v: u64 = s.parse().ok()?;
+                e.add_subject(v).ok()?;
+            }
+        }
+    }
+    match targets {
+        "null" => {}
+        "e" => e.verif_set_empty_lists(false, true),
+        list => {
+            for t in list.split(';') {
+                let mut it = t.split('/');
+                let ep: Option<u16> = opt_num(it.next()?);
+                let cl: Option<u32> = opt_num(it.next()?);
+                let dt: Option<u32> = opt_num(it.next()?);
+                e.add_target(Target::new(ep, cl, dt)).ok()?;
+            }
+        }
+    }
+    Some(e)
+}
+
+pub(crate) struct QStat {
+    pub allow: bool,
+    pub pase: bool,
+}
+
+pub(crate) fn run_op(matter: &Matter<'_>, op: &str, out: &mut Out) -> (String, Option<QStat>) {
+    let w: Vec<&str> = op.split_whitespace().collect();
+    match w.as_slice() {
+        ["caps", f, a, s, t, g, e, c] => {
+            let mine = [
+                MAX_FABRICS,
+                MAX_ACL_ENTRIES_PER_FABRIC,
+                MAX_SUBJECTS_PER_ACL_ENTRY,
+                MAX_TARGETS_PER_ACL_ENTRY,
+                MAX_GROUPS_PER_FABRIC,
+                GROUP_ENDPOINTS_PER_FABRIC,
+                MAX_CAT_IDS_PER_NOC,
+            ];
+            let theirs: Vec<usize> = [f, a, s, t, g, e, c].iter().map(|x| x.parse().unwrap_or(usize::MAX)).collect();
+            (if mine.to_vec() == theirs { "ok".into() } else { format!("built-with {:?}", mine) }, None)
+        }
+        ["fab"] => {
+            let r = matter.with_state(|state| state.fabrics.add_with_post_init(|_| Ok(())).map(|f| f.fab_idx().get()));
+            (match r {
+                Ok(i) => i.to_string(),
+                Err(_) => "err".into(),
+            }, None)
+        }
+        ["rmfab", idx] => {
+            let r = idx.parse::<u8>().ok().and_then(NonZeroU8::new).map(|i| matter.with_state(|state| state.fabrics.remove(i).is_ok()));
+            (if r == Some(true) { "ok".into() } else { "err".into() }, None)
+        }
+        ["acl", fab, pb, mode, subjects, targets] => {
+            let r = (|| {
+                let fab = NonZeroU8::new(fab.parse::<u8>().ok()?)?;
+                let e = build_entry(pb.parse().ok()?, mode_of(mode)?, subjects, targets)?;
+                matter.with_state(|state| state.fabrics.fabric_mut(fab).ok()?.acl_add(e).ok())
+            })();
+            (match r {
+                Some(i) => i.to_string(),
+                None => "err".into(),
+            }, None)
+        }
+        ["grp", fab, gid, ep] => {
+            let r = (|| {
+                let fab = NonZeroU8::new(fab.parse::<u8>().ok()?)?;
+                let gid: u16 = gid.parse().ok()?;
+                let ep: u16 = ep.parse().ok()?;
+                matter.with_state(|state| state.fabrics.fabric_mut(fab).ok()?.groups_mut().add(ep, gid, "").ok())
+            })();
+            (if r.is_some() { "ok".into() } else { "err".into() }, None)
+        }
+        ["gaux", fab, gid, v] => {
+            let r = (|| {
+                let fab = NonZeroU8::new(fab.parse::<u8>().ok()?)?;
+                let gid: u16 = gid.parse().ok()?;
+                matter.with_state(|state| {
+                    let f = state.fabrics.fabric_mut(fab).ok()?;
+                    f.groups().get(gid)?;
+                    Some(f.groups_mut().set_has_aux_acl(gid, *v == "1"))
+                })
+            })();
+            (match r {
+                Some(true) => "changed".into(),
+                Some(false) => "same".into(),
+                None => "err".into(),
+            }, None)
+        }
+        ["q", fab, mode, aux, id, cats, ep, cl, leaf, opb, perms, dts] => {
+            let fab: u8 = fab.parse().unwrap_or(0);
+            let aux = *aux == "1";
+            let mut subj = AccessorSubjects::new(id.parse().unwrap_or(0));
+            if *cats != "-" {
+                for c in cats.split(',') {
+                    let _ = subj.add_catid(c.parse().unwrap_or(0));
+                }
+            }
+            let accessor = Accessor::new(fab, aux, subj, mode_of(mode), matter);
+            let path = GenericPath::new(opt_num(ep), opt_num(cl), opt_num(leaf));
+            let dts: Vec<DeviceType> = if *dts == "-" {
+                Vec::new()
+            } else {
+                dts.split(',').map(|d| DeviceType { dtype: d.parse().unwrap_or(0), drev: 1 }).collect()
+            };
+            let mut req = AccessReq::new(&accessor, path, Access::from_bits_retain(opb.parse().unwrap_or(0)), &dts);
+            if *perms != "none" {
+                req.set_target_perms(Access::from_bits_retain(perms.parse().unwrap_or(0)));
+            }
+            let r = std::panic::catch_unwind(std::panic::AssertUnwindSafe(|| req.allow()));
+            let allow = match r {
+                Ok(b) => b,
+                Err(_) => return ("panic".into(), None),
+            };
+            // per-entry detail through the verif hooks (the fabric of the accessor, if it exists)
+            let detail = NonZeroU8::new(fab).and_then(|f| {
+                matter.with_state(|state| {
+                    state.fabrics.get(f).map(|fabric| {
+                        let mut ma = String::new();
+                        let mut md = String::new();
+                        let mut any_entry = false;
+                        let mut any_ma = false;
+                        for e in fabric.acl_iter() {
+                            let a = e.verif_match_accessor(&accessor);
+                            let d = e.verif_match_access_desc(&req, aux);
+                            ma.push(if a { '1' } else { '0' });
+                            md.push(if d { '1' } else { '0' });
+                            any_entry |= a && d;
+                            any_ma |= a;
+                        }
+                        if ma.is_empty() {
+                            ma.push('-');
+                            md.push('-');
+                        }
+                        (ma, md, any_entry, any_ma)
+                    })
+                })
+            });
+            let pase = mode_of(mode) == Some(AuthMode::Pase);
+            let reason = if pase {
+                "allow_pase"
+            } else if fab == 0 {
+                "deny_no_fabric_index"
+            } else {
+                match &detail {
+                    None => "deny_fabric_missing",
+                    Some((_, _, true, _)) => "allow_by_entry",
+                    Some((_, _, false, _)) if allow => "allow_by_auxiliary_only",
+                    Some((ma, _, _, _)) if ma == "-" => "deny_empty_acl",
+                    Some((_, _, _, false)) => "deny_no_entry_matches_accessor",
+                    Some(_) => "deny_target_or_privilege",
+                }
+            };
+            out.stat(&format!("decision_{}", reason), 1);
+            out.stat(if allow { "verdict_allow" } else { "verdict_deny" }, 1);
+            let (ma, md) = match detail {
+                Some((a, d, _, _)) => (a, d),
+                None => ("-".to_string(), "-".to_string()),
+            };
+            (format!("{} {} {}", if allow { "allow" } else { "deny" }, ma, md), Some(QStat { allow, pase }))
+        }
+        ["ep", fab, mode, id, endpoint] => {
+            let accessor = Accessor::new(
+                fab.parse().unwrap_or(0),
+                false,
+                AccessorSubjects::new(id.parse().unwrap_or(0)),
+                mode_of(mode),
+                matter,
+            );
+            let r = std::panic::catch_unwind(std::panic::AssertUnwindSafe(|| accessor.is_endpoint_accessible(endpoint.parse().unwrap_or(0))));
+            match r {
+                Ok(b) => {
+                    out.stat(if b { "reach_yes" } else { "reach_no" }, 1);
+                    (if b { "yes".into() } else { "no".into() }, None)
+                }
+                Err(_) => ("panic".into(), None),
+            }
+        }
+        _ => ("badop".into(), None),
+    }
+}
+
+fn run_case(matter: &Matter<'_>, out: &mut Out, case: &Case) {
+    reset(matter);
+    out.case(case.id, &case.kind);
+    let mut allow = false;
+    let mut deny = false;
+    for op in &case.ops {
+        let (o, q) = run_op(matter, op, out);
+        out.op(op, &o);
+        if let Some(q) = q {
+            if !q.pase {
+                allow |= q.allow;
+                deny |= !q.allow;
+            }
+        }
+    }
+    if allow && deny {
+        out.buf.push_str("#nt\n");
+    }
+}
+
+// ---------------------------------------------------------------------------------- generator
+
+const NODE_IDS: [u64; 6] = [1, 2, 112233, 0xFFFF_FFEF_FFFF_FFFF, 0, 0xFFFF_FFFD_0000_0000];
+const CAT_IDS: [u32; 3] = [1, 2, 0xABCD];
+const CAT_VERS: [u32; 6] = [0, 1, 2, 3, 0xFFFE, 0xFFFF];
+const GROUP_IDS: [u64; 5] = [1, 2, 3, 0x100, 0xFFFF];
+const ENDPOINTS: [u16; 5] = [0, 1, 2, 3, 0xFFFE];
+const CLUSTERS: [u32; 4] = [6, 8, 0x1F, 0x3E];
+const DEV_TYPES: [u32; 3] = [0x16, 0x100, 0x101];
+
+#[derive(Clone)]
+struct GEntry {
+    mode: char,
+    subjects: Option<Vec<u64>>,
+    targets: Option<Vec<(Option<u16>, Option<u32>, Option<u32>)>>,
+}
+
+struct GFab {
+    idx: u8,
+    entries: Vec<GEntry>,
+    groups: Vec<(u64, Vec<u16>)>,
+}
+
+fn cat_subject(id: u32, ver: u32) -> u64 {
+    NOC_CAT_SUBJECT_PREFIX | (((id as u64) << 16) | ver as u64)
+}
+
+fn declared_perms() -> Vec<u16> {
+    vec![
+        Access::RV.bits(),
+        Access::RF.bits(),
+        Access::RA.bits(),
+        Access::RWVA.bits(),
+        Access::RWFA.bits(),
+        Access::RWVM.bits(),
+        Access::RWFVM.bits(),
+        Access::WO.bits(),
+        Access::WM.bits(),
+        Access::WA.bits(),
+        (Access::READ | Access::NEED_OPERATE).bits(),
+        (Access::READ | Access::NEED_MANAGE).bits(),
+        (Access::WRITE | Access::NEED_VIEW).bits(),
+        (Access::WRITE | Access::NEED_OPERATE | Access::TIMED_ONLY).bits(),
+        (Access::READ | Access::WRITE).bits(),
+        (Access::NEED_VIEW | Access::NEED_ADMIN).bits(),
+        0,
+    ]
+}
+
+fn gen_subject(r: &mut Rng, mode: char) -> u64 {
+    if mode == 'g' {
+        *r.pick(&GROUP_IDS)
+    } else if r.chance(1, 2) {
+        cat_subject(*r.pick(&CAT_IDS), *r.pick(&CAT_VERS))
+    } else {
+        *r.pick(&NODE_IDS)
+    }
+}
+
+fn fmt_opt<T: ToString>(o: &Option<T>, none: &str) -> String {
+    o.as_ref().map(|x| x.to_string()).unwrap_or_else(|| none.to_string())
+}
+
+fn gen_case(r: &mut Rng, out: &mut Out, uniform: bool, nq: usize) -> Vec<String> {
+    let mut ops: Vec<String> = Vec::new();
+    let mut fabs: Vec<GFab> = Vec::new();
+    let mut missing: Vec<u8> = vec![200, 255];
+    // fabrics
+    let nf = *r.pick(&[1usize, 2, 2, 3, 3, 4, 5, 6]);
+    let mut next = 1u8;
+    for _ in 0..nf {
+        ops.push("fab".into());
+        if fabs.len() < MAX_FABRICS {
+            fabs.push(GFab { idx: next, entries: Vec::new(), groups: Vec::new() });
+            next += 1;
+        }
+    }
+    missing.push(next);
+    if fabs.len() >= 2 && r.chance(1, 2) {
+        let i = r.below(fabs.len() as u64) as usize;
+        let f = fabs.remove(i);
+        ops.push(format!("rmfab {}", f.idx));
+        missing.push(f.idx);
+        if r.chance(1, 3) {
+            ops.push("fab".into());
+            let m = fabs.iter().map(|f| f.idx).max().unwrap_or(0);
+            fabs.push(GFab { idx: m + 1, entries: Vec::new(), groups: Vec::new() });
+            missing.retain(|x| *x != m + 1);
+        }
+    }
+    if r.chance(1, 20) {
+        ops.push(format!("rmfab {}", r.pick(&missing)));
+    }
+    // entries
+    for f in fabs.iter_mut() {
+        let ne = *r.pick(&[0usize, 1, 1, 2, 2, 3, 4, 5]);
+        for _ in 0..ne {
+            let mode = *r.pick(&['c', 'c', 'c', 'g', 'g', 'p']);
+            let pb: u8 = if uniform || r.chance(1, 10) {
+                out.stat("entry_priv_raw_bits", 1);
+                r.below(32) as u8
+            } else {
+                out.stat("entry_priv_canonical", 1);
+                *r.pick(&[
+                    Privilege::VIEW.bits(),
+                    Privilege::OPERATE.bits(),
+                    Privilege::MANAGE.bits(),
+                    Privilege::ADMIN.bits(),
+                    Privilege::PROXYVIEW.bits(),
+                ])
+            };
+            let subjects = match r.below(10) {
+                0..=1 => { out.stat("entry_subjects_null", 1); None }
+                2..=3 => { out.stat("entry_subjects_empty", 1); Some(Vec::new()) }
+                _ => {
+                    out.stat("entry_subjects_nonempty", 1);
+                    let n = *r.pick(&[1usize, 1, 2, 3, 4, 5]);
+                    Some((0..n).map(|_| gen_subject(r, mode)).collect())
+                }
+            };
+            let targets = match r.below(10) {
+                0..=1 => { out.stat("entry_targets_null", 1); None }
+                2..=3 => { out.stat("entry_targets_empty", 1); Some(Vec::new()) }
+                _ => {
+                    out.stat("entry_targets_nonempty", 1);
+                    let n = *r.pick(&[1usize, 1, 2, 3, 4]);
+                    Some((0..n).map(|_| {
+                        let shape = r.below(8);
+                        let ep = if shape & 1 != 0 { Some(*r.pick(&ENDPOINTS)) } else { None };
+                        let cl = if shape & 2 != 0 { Some(*r.pick(&CLUSTERS)) } else { None };
+                        let dt = if shape & 4 != 0 { Some(*r.pick(&DEV_TYPES)) } else { None };
+                        out.stat(&format!("target_shape_{}{}{}", if ep.is_some() { "E" } else { "-" }, if cl.is_some() { "C" } else { "-" }, if dt.is_some() { "D" } else { "-" }), 1);
+                        (ep, cl, dt)
+                    }).collect())
+                }
+            };
+            let ss = match &subjects {
+                None => "null".to_string(),
+                Some(v) if v.is_empty() => "e".to_string(),
+                Some(v) => v.iter().map(|x| x.to_string()).collect::<Vec<_>>().join(","),
+            };
+            let ts = match &targets {
+                None => "null".to_string(),
+                Some(v) if v.is_empty() => "e".to_string(),
+                Some(v) => v.iter().map(|(e, c, d)| format!("{}/{}/{}", fmt_opt(e, "-"), fmt_opt(c, "-"), fmt_opt(d, "-"))).collect::<Vec<_>>().join(";"),
+            };
+            ops.push(format!("acl {} {} {} {} {}", f.idx, pb, mode, ss, ts));
+            f.entries.push(GEntry { mode, subjects, targets });
+        }
+        // group table
+        if r.chance(1, 2) {
+            let ng = r.range(1, 5);
+            for _ in 0..ng {
+                let gid = *r.pick(&GROUP_IDS);
+                let ep = *r.pick(&ENDPOINTS);
+                ops.push(format!("grp {} {} {}", f.idx, gid, ep));
+                if let Some(g) = f.groups.iter_mut().find(|g| g.0 == gid) {
+                    g.1.push(ep);
+                } else {
+                    f.groups.push((gid, vec![ep]));
+                }
+                if r.chance(1, 2) {
+                    ops.push(format!("gaux {} {} {}", f.idx, gid, if r.chance(3, 4) { 1 } else { 0 }));
+                }
+            }
+        }
+    }
+    if r.chance(1, 30) {
+        ops.push(format!("acl {} 1 c null null", r.pick(&missing)));
+    }
+    // queries
+    let perms_pool = declared_perms();
+    for _ in 0..nq {
+        if r.chance(1, 8) {
+            // group reachability
+            let fab = if !fabs.is_empty() && r.chance(4, 5) { fabs[r.below(fabs.len() as u64) as usize].idx } else if r.chance(1, 2) { 0 } else { *r.pick(&missing) };
+            let mode = *r.pick(&["g", "g", "g", "c", "p", "n"]);
+            let mut id = *r.pick(&GROUP_IDS);
+            if r.chance(1, 8) {
+                id += 65536;
+            }
+            ops.push(format!("ep {} {} {} {}", fab, mode, id, r.pick(&ENDPOINTS)));
+            continue;
+        }
+        // accessor fabric ∈ {0, existing, missing}
+        let fsel = r.below(10);
+        let (fab, gf): (u8, Option<&GFab>) = if fsel < 7 && !fabs.is_empty() {
+            let f = &fabs[r.below(fabs.len() as u64) as usize];
+            out.stat("q_fabric_existing", 1);
+            (f.idx, Some(f))
+        } else if fsel < 8 {
+            out.stat("q_fabric_zero", 1);
+            (0, None)
+        } else {
+            out.stat("q_fabric_missing", 1);
+            (*r.pick(&missing), None)
+        };
+        let aux = if r.chance(1, 5) { 1 } else { 0 };
+        // directed: aim at one entry of the fabric (or of another fabric, to test separation)
+        let aim: Option<GEntry> = if uniform {
+            None
+        } else {
+            let src: Option<&GFab> = if r.chance(1, 6) && !fabs.is_empty() { Some(&fabs[r.below(fabs.len() as u64) as usize]) } else { gf };
+            src.and_then(|f| if f.entries.is_empty() { None } else { Some(f.entries[r.below(f.entries.len() as u64) as usize].clone()) })
+        };
+        let mut mode: &str = *r.pick(&["c", "c", "c", "g", "g", "p", "n"]);
+        let mut id: u64 = *r.pick(&NODE_IDS);
+        let mut cats: Vec<u32> = Vec::new();
+        let mut ep: Option<u16> = Some(*r.pick(&ENDPOINTS));
+        let mut cl: Option<u32> = Some(*r.pick(&CLUSTERS));
+        let mut dts: Vec<u32> = Vec::new();
+        if r.chance(1, 3) {
+            dts.push(*r.pick(&DEV_TYPES));
+        }
+        if r.chance(1, 6) {
+            dts.push(*r.pick(&DEV_TYPES));
+        }
+        if mode == "g" {
+            id = *r.pick(&GROUP_IDS);
+        } else {
+            let nc = *r.pick(&[0usize, 0, 1, 2, 3, 3, 4]);
+            for _ in 0..nc {
+                cats.push((*r.pick(&CAT_IDS) << 16) | *r.pick(&CAT_VERS));
+            }
+        }
+        if let Some(e) = &aim {
+            out.stat("q_directed", 1);
+            if r.chance(9, 10) {
+                mode = if e.mode == 'c' { "c" } else if e.mode == 'g' { "g" } else { "p" };
+            }
+            if let Some(ss) = &e.subjects {
+                if !ss.is_empty() && r.chance(5, 6) {
+                    let s = *r.pick(ss);
+                    let is_cat = (s >> 32) == 0xFFFF_FFFD && (s & 0xFFFF_FFFF) != 0;
+                    if is_cat && mode != "g" {
+                        // same identifier, version above / equal / below
+                        let cid = ((s >> 16) & 0xFFFF) as u32;
+                        let ver = (s & 0xFFFF) as u32;
+                        let v = match r.below(3) {
+                            0 => { out.stat("q_cat_version_above", 1); ver.saturating_add(1).min(0xFFFF) }
+                            1 => { out.stat("q_cat_version_equal", 1); ver }
+                            _ => { out.stat("q_cat_version_below", 1); ver.saturating_sub(1) }
+                        };
+                        let c = (cid << 16) | v;
+                        if cats.len() >= 3 {
+                            let k = r.below(3) as usize;
+                            cats[k] = c;
+                        } else {
+                            let k = r.below(cats.len() as u64 + 1) as usize;
+                            cats.insert(k, c);
+                        }
+                    } else {
+                        id = s;
+                    }
+                }
+            }
+            if let Some(ts) = &e.targets {
+                if !ts.is_empty() && r.chance(5, 6) {
+                    let t = r.pick(ts);
+                    if let Some(x) = t.0 { ep = Some(x); }
+                    if let Some(x) = t.1 { cl = Some(x); }
+                    if let Some(x) = t.2 { if r.chance(4, 5) { dts.push(x); } }
+                }
+            }
+        } else {
+            out.stat("q_undirected", 1);
+        }
+        // aim at the group table (auxiliary entries synthesised from it when the feature is on)
+        let mut aux = aux;
+        if !uniform && r.chance(1, 8) {
+            if let Some(f) = gf {
+                if !f.groups.is_empty() {
+                    let g = &f.groups[r.below(f.groups.len() as u64) as usize];
+                    out.stat("q_aimed_at_group", 1);
+                    mode = "g";
+                    cats.clear();
+                    id = g.0;
+                    if r.chance(4, 5) { ep = Some(*r.pick(&g.1)); }
+                    if r.chance(4, 5) { aux = 1; }
+                }
+            }
+        }
+        if r.chance(1, 12) { ep = None; }
+        if r.chance(1, 12) { cl = None; }
+        let leaf: Option<u32> = if r.chance(1, 6) { None } else { Some(r.below(4) as u32) };
+        let opb: u16 = if uniform && r.chance(1, 4) {
+            r.below(512) as u16
+        } else {
+            match r.below(20) {
+                0..=9 => Access::READ.bits(),
+                10..=18 => Access::WRITE.bits(),
+                _ => *r.pick(&[0u16, (Access::READ | Access::WRITE).bits(), Access::NEED_VIEW.bits()]),
+            }
+        };
+        let perms: String = if r.chance(1, 25) {
+            "none".into()
+        } else if uniform || r.chance(1, 6) {
+            r.below(512).to_string()
+        } else {
+            r.pick(&perms_pool).to_string()
+        };
+        out.stat(&format!("q_mode_{}", mode), 1);
+        out.stat(&format!("q_cats_{}", cats.len()), 1);
+        out.stat(if aux == 1 { "q_aux_on" } else { "q_aux_off" }, 1);
+        ops.push(format!(
+            "q {} {} {} {} {} {} {} {} {} {} {}",
+            fab,
+            mode,
+            aux,
+            id,
+            if cats.is_empty() { "-".to_string() } else { cats.iter().map(|c| c.to_string()).collect::<Vec<_>>().join(",") },
+            fmt_opt(&ep, "*"),
+            fmt_opt(&cl, "*"),
+            fmt_opt(&leaf, "*"),
+            opb,
+            perms,
+            if dts.is_empty() { "-".to_string() } else { dts.iter().map(|c| c.to_string()).collect::<Vec<_>>().join(",") },
+        ));
+    }
+    ops
+}
+
+fn caps_line() -> String {
+    format!(
+        "caps {} {} {} {} {} {} {}",
+        MAX_FABRICS,
+        MAX_ACL_ENTRIES_PER_FABRIC,
+        MAX_SUBJECTS_PER_ACL_ENTRY,
+        MAX_TARGETS_PER_ACL_ENTRY,
+        MAX_GROUPS_PER_FABRIC,
+        GROUP_ENDPOINTS_PER_FABRIC,
+        MAX_CAT_IDS_PER_NOC
+    )
+}
+
+pub(crate) fn with_matter<R: Send + 'static>(f: impl FnOnce(&Matter<'_>) -> R + Send + 'static) -> R {
+    // `Matter` is large: build it on a big stack, once per run.
+    std::thread::Builder::new()
+        .stack_size(256 * 1024 * 1024)
+        .spawn(move || {
+            let matter = Box::new(Matter::new(&TEST_DEV_DET, TEST_DEV_COMM, &TEST_DEV_ATT, 0));
+            f(&matter)
+        })
+        .expect("spawn")
+        .join()
+        .expect("harness thread")
+}
+
+pub fn gen(a: &Args) -> String {
+    let seed = a.seed;
+    let thorough = a.thorough;
+    with_matter(move |matter| {
+        let mut r = Rng::new(seed);
+        let mut out = Out::default();
+        out.buf.push_str("#rule one case = a node configuration (1..5 fabrics with removed/missing indices, 0..4 ACL entries each: privilege x auth mode x null/empty/non-empty subjects x null/empty/non-empty targets of all 8 endpoint/cluster/device-type shapes, group tables) built through the real API, then queries (accessor fabric in {0, existing, missing}, mode PASE/CASE/Group/none, up to 4 tags with version above/equal/below an entry's, operation, declared and random access bits) mostly aimed at one entry with single-aspect deviations; 1 case in 5 is uniform over raw bit patterns; non-trivial = the non-PASE queries of the case produced both allow and deny\n");
+        let n_cases: u64 = if thorough { 120000 } else { 12000 };
+        // case 0: the capacities the model assumes
+        run_case(matter, &mut out, &Case { id: 0, kind: "acl caps".into(), ops: vec![caps_line()] });
+        for id in 1..=n_cases {
+            let mut cr = r.fork();
+            let uniform = cr.chance(1, 5);
+            let nq = if thorough { cr.range(10, 60) } else { cr.range(10, 40) } as usize;
+            out.stat(if uniform { "kind_uniform" } else { "kind_directed" }, 1);
+            let ops = gen_case(&mut cr, &mut out, uniform, nq);
+            run_case(matter, &mut out, &Case { id, kind: if uniform { "acl uniform".into() } else { "acl directed".into() }, ops });
+        }
+        out.finish()
+    })
+}
+
+pub fn replay(a: &Args) -> String {
+    let text = std::fs::read_to_string(a.input.as_ref().expect("--in")).expect("read input");
+    with_matter(move |matter| {
+        let mut out = Out::default();
+        for c in parse_cases(&text) {
+            run_case(matter, &mut out, &c);
+        }
+        out.finish()
+    })
 }
